@@ -230,6 +230,8 @@ func (x *Exec) assignStmt(fr *Frame, s *ast.AssignStmt, st *State, k func(*State
 					op = token.SHR
 				case token.XOR_ASSIGN:
 					op = token.XOR
+				case token.AND_NOT_ASSIGN:
+					op = token.AND_NOT
 				default:
 					panic(x.unsupported("assignment operator " + s.Tok.String()))
 				}
